@@ -1,6 +1,7 @@
 /- driver families `p2f.*` (Float, 64-bit words) and `p2q.*` (exact rationals): P², bins, interp -/
 import Gpv.Model.P2
 import Gpv.Model.Bins
+import Gpv.Model.P2Vec
 import Gpv.Drv.Util
 namespace Gpv.Drv
 open Gpv
@@ -36,6 +37,15 @@ def p2Step (parse : String → Option K) (fmt : K → String) (cmd : String) (ar
       | some n, some q, some h, some pos, some x =>
           [fmtP2 fmt (P2.push ⟨q, n, h, pos⟩ x)]
       | _, _, _, _, _ => ["bad-op"]
+  | "vstep", [[d, n], q, h, pos, x] =>
+      -- array estimator: h and pos are row-major (marker, component) tables of d components per row
+      match d.toNat?, n.toNat?, nums q, nums h, nums pos, nums x with
+      | some d, some n, some q, some h, some pos, some x =>
+          let chunk (l : List K) : List (List K) :=
+            if d = 0 then [] else (List.range (l.length / d)).map fun i => (l.drop (i * d)).take d
+          let s' := P2V.push ⟨q, d, n, chunk h, chunk pos⟩ x
+          [s!"{s'.n} | " ++ " ".intercalate (s'.h.flatten.map fmt) ++ " | " ++ " ".intercalate (s'.pos.flatten.map fmt)]
+      | _, _, _, _, _, _ => ["bad-op"]
   | "run", [_, q, xs] =>
       match nums q, nums xs with
       | some q, some xs => [fmtP2 fmt (P2.run q xs)]
